@@ -318,6 +318,8 @@ def gen_ops(rng, data, maxops):
                 c = rng.choice("DWLGPSDWE")
             else:
                 c = rng.choice("LlETDWFBUIGPS")
+        if r.p and r.p % PAGE == 0 and rng.chance(1, 2):
+            c = rng.choice("GP")        # a map / buffer can end exactly here
         before = r.p
         r.op(c)
         ops.append(c)
@@ -493,19 +495,20 @@ def judge_fp(case, impl_line):
 
 
 def signature_of(case, k, msg, spec_tok, impl_tok):
+    """failing call site / input class: backend class + what went wrong (+ the call for value errors)"""
     backend, data, ops = fp_fields(case)
     s, so = spec_tok.rsplit("@", 1)
     i, io = impl_tok.rsplit("@", 1) if "@" in impl_tok else (impl_tok, "?")
     mode = "mmap" if backend == "M" else "read"
-    if s == i or (s == "END") or (s == "NAN" and is_nan_tok(i)):
-        what = "offset"
-    elif i == "EOF":
-        what = "spurious-eof"
-    elif s == "EOF" or s == "END":
-        what = "data-after-end"
-    else:
-        what = "value"
-    return "%s:%s:%s" % (mode, ops[k], what)
+    if s == "NAN" or is_nan_tok(i):
+        return "number:nan"
+    if s == i or s == "END":
+        return "%s:offset" % mode
+    if i == "EOF":
+        return "%s:spurious-eof" % mode
+    if s == "EOF":
+        return "%s:data-after-end" % mode
+    return "%s:%s:value" % (mode, ops[k])
 
 
 def run(ctx):
